@@ -817,4 +817,132 @@ theorem normpath_abs_shape (q : Str) :
           | nil => rw [h2] at e; cases e
           | cons p ps => rw [h2] at e; cases e; simp
 
+theorem mem_resolveLoop (W : List Str) : ∀ (acc : List Str) (x : Str),
+    x ∈ resolveLoop W acc → x ∈ acc ∨ x ∈ W := by
+  induction W with
+  | nil => intro acc x hx; simp only [resolveLoop, List.mem_reverse] at hx; exact Or.inl hx
+  | cons seg rest ih =>
+    intro acc x hx
+    unfold resolveLoop at hx
+    split at hx
+    · split at hx
+      · rcases ih _ x hx with h | h
+        · exact Or.inl (List.mem_of_mem_tail h)
+        · exact Or.inr (by simp [h])
+      · exact (ih _ x hx).imp id (fun h => by simp [h])
+    · split at hx
+      · exact (ih _ x hx).imp id (fun h => by simp [h])
+      · rcases ih _ x hx with h | h
+        · simp only [List.mem_cons] at h
+          rcases h with rfl | h
+          · exact Or.inr (by simp)
+          · exact Or.inl h
+        · exact Or.inr (by simp [h])
+
+theorem mem_withSlashes (L : List Str) (seg : Str) (h : seg ∈ withSlashes L) :
+    ∃ a ∈ L, seg = a ∨ seg = a ++ ['/'] := by
+  induction L with
+  | nil => simp [withSlashes] at h
+  | cons a rest ih =>
+    cases rest with
+    | nil =>
+      simp only [withSlashes, List.mem_singleton] at h
+      exact ⟨a, by simp, Or.inl h⟩
+    | cons b r =>
+      simp only [withSlashes, List.mem_cons] at h
+      rcases h with h | h
+      · exact ⟨a, by simp, Or.inr h⟩
+      · obtain ⟨a', ha', hh⟩ := ih (by simpa [withSlashes] using h)
+        exact ⟨a', by simp only [List.mem_cons] at ha' ⊢; exact Or.inr ha', hh⟩
+
+theorem mem_join_of_mem (sep : Str) (L : List Str) (p : Str) (hp : p ∈ L) : p ⊆ join sep L := by
+  induction L with
+  | nil => simp at hp
+  | cons a rest ih =>
+    cases rest with
+    | nil => simp only [List.mem_singleton] at hp; subst hp; simp [join]
+    | cons b r =>
+      simp only [join]
+      intro x hx
+      simp only [List.mem_cons] at hp
+      rcases hp with rfl | hp
+      · simp [hx]
+      · have := ih (by simpa using hp) hx
+        simp only [List.mem_append]
+        exact Or.inr this
+
+theorem piece_subset (s : Str) (sep : Char) (p : Str) (hp : p ∈ splitOn s sep) : p ⊆ s := by
+  have := mem_join_of_mem [sep] _ p hp
+  rwa [join_splitOn] at this
+
+/-- `normpath` only rearranges characters of its argument (and slashes) -/
+theorem mem_normpath {c : Char} {p : Str} (h : c ∈ normpath p) : c ∈ p ∨ c = '/' := by
+  unfold normpath rstripChars at h
+  have h1 := (List.dropWhile_sublist _).subset (List.mem_reverse.1 h)
+  have h2 := List.mem_reverse.1 h1
+  simp only [List.mem_flatten] at h2
+  obtain ⟨seg, hseg, hc⟩ := h2
+  rcases mem_resolveLoop _ _ _ hseg with h3 | h3
+  · simp at h3
+  · obtain ⟨a, ha, rfl | rfl⟩ := mem_withSlashes _ _ h3
+    · exact Or.inl (squeeze_subset p (piece_subset _ _ _ ha hc))
+    · simp only [List.mem_append, List.mem_singleton] at hc
+      rcases hc with hc | hc
+      · exact Or.inl (squeeze_subset p (piece_subset _ _ _ ha hc))
+      · exact Or.inr hc
+
+/-! ## the path rule -/
+
+/-- empty or starting with a slash -/
+def AbsPath (p : Str) : Prop := p = [] ∨ ∃ q, p = '/' :: q
+
+theorem safelyUnquote_nil (U : List UInt8) : safelyUnquote U [] = [] := by
+  simp [safelyUnquote, tokens, unquoteToks, assemble, flush, segment, segment.go, render]
+
+theorem safelyUnquote_cons_slash (U : List UInt8) (q : Str) :
+    safelyUnquote U ('/' :: q) = '/' :: safelyUnquote U q := by
+  have := safelyUnquote_append_sep U (c := '/') ⟨by decide, by decide⟩ (by decide) [] q
+  simpa [safelyUnquote_nil] using this
+
+theorem mem_canonPath {c : Char} {path : Str} {m : Bool} (h : c ∈ canonPath path m) :
+    c ∈ unquotePath path ∨ c = '/' := by
+  unfold canonPath at h
+  simp only at h
+  split at h
+  · split at h
+    · simp only [List.mem_singleton] at h; exact Or.inr h
+    · simp at h
+  · split at h
+    · simp only [List.mem_append, List.mem_singleton] at h
+      rcases h with h | h
+      · exact mem_normpath h
+      · exact Or.inr h
+    · exact mem_normpath h
+
+/-- the canonical path of an absolute path is empty, `/`, or a slash followed by a
+non-slash -/
+theorem canonPath_shape (path : Str) (m : Bool) (hp : AbsPath path) :
+    canonPath path m = [] ∨ canonPath path m = ['/'] ∨
+      ∃ d r, canonPath path m = '/' :: d :: r ∧ d ≠ '/' := by
+  unfold canonPath
+  simp only
+  split
+  · split
+    · right; left; rfl
+    · left; rfl
+  · rename_i hne
+    rcases hp with rfl | ⟨q, rfl⟩
+    · exfalso; apply hne; left
+      simp [unquotePath, safelyUnquote_nil, normpath, squeezeSlashes, splitOn_nil, withSlashes,
+        resolveLoop, rstripChars]
+    · have hu : unquotePath ('/' :: q) = '/' :: unquotePath q := safelyUnquote_cons_slash _ q
+      rw [hu] at hne ⊢
+      rcases normpath_abs_shape (unquotePath q) with h0 | ⟨d, r, h1, hd⟩
+      · exfalso; apply hne; left; simp [h0]
+      · right; right
+        rw [h1]
+        split
+        · exact ⟨d, r ++ ['/'], by simp, hd⟩
+        · exact ⟨d, r, rfl, hd⟩
+
 end Ural.CanonRoundTrip
